@@ -11,6 +11,7 @@ type case = {
   mutable parsed : string list;
   mutable generics : string list;
   mutable passes : int list list option;
+  mutable relex : (int * int * string) list;
   mutable lines : (string * line list) list;
   mutable states : (string * tokstate array) list;
   mutable out : string option;
@@ -21,7 +22,7 @@ type case = {
   mutable badutf8 : bool;
   mutable complete : bool;
 }
-let new_case id = { id; cfg = []; rs = ("", "", ""); input = ""; cursors = []; raw = []; parsed = []; generics = []; passes = None;
+let new_case id = { id; cfg = []; rs = ("", "", ""); input = ""; cursors = []; raw = []; parsed = []; generics = []; passes = None; relex = [];
   lines = []; states = []; out = None; outcursors = []; panic = None; drift = false; cursordep = false; badutf8 = false; complete = false }
 let split s = String.split_on_char ' ' s |> List.filter (fun x -> x <> "")
 let ints s = if s = "-" then [] else List.map int_of_string (String.split_on_char ',' s)
@@ -36,6 +37,7 @@ let read_cases (ic : in_channel) (f : case -> unit) : unit =
      | "PARSED" -> c.parsed <- List.rev !acc_t
      | "GENERICS" -> c.generics <- List.rev !acc_t
      | "PASSES" -> c.passes <- Some (List.rev !acc_p)
+     | "RELEX" -> c.relex <- List.rev !acc_raw
      | "LINES" -> c.lines <- c.lines @ [(!pending_label, List.rev !acc_l)]
      | "STATE" -> c.states <- c.states @ [(!pending_label, Array.of_list (List.rev !acc_k))]
      | _ -> ());
@@ -48,7 +50,7 @@ let read_cases (ic : in_channel) (f : case -> unit) : unit =
       | w :: rest ->
         (match !cur with None -> () | Some c ->
           (match w, rest with
-           | "r", [a; b; ty] -> acc_raw := (int_of_string a, int_of_string b, ty) :: !acc_raw
+           | ("r" | "x"), [a; b; ty] -> acc_raw := (int_of_string a, int_of_string b, ty) :: !acc_raw
            | "t", [ty] -> acc_t := ty :: !acc_t
            | "p", l -> acc_p := List.map int_of_string l :: !acc_p
            | "l", lty :: lev :: pl :: pt :: _n :: toks ->
@@ -65,6 +67,7 @@ let read_cases (ic : in_channel) (f : case -> unit) : unit =
               | "CURSORS", [s] -> c.cursors <- ints s
               | "RAW", [_] -> pending_kind := "RAW"
               | "PASSES", [_] -> pending_kind := "PASSES"
+              | "RELEX", [_] -> pending_kind := "RELEX"
               | "PARSED", [_] -> pending_kind := "PARSED"
               | "GENERICS", [_] -> pending_kind := "GENERICS"
               | "LINES", [lab; _] -> pending_kind := "LINES"; pending_label := lab
